@@ -9,9 +9,12 @@ import os
 V = os.path.dirname(os.path.dirname(os.path.abspath(__file__)))
 base = json.load(open(os.path.join(V, 'manifest.d', '_base.json')))
 checks = []
+ready = json.load(open(os.path.join(V, 'manifest.d', '_ready.json')))   # maintained by the coordinator
 for fp in sorted(glob.glob(os.path.join(V, 'manifest.d', 'C*.json'))):
     c = json.load(open(fp))
     pid = c['property_id']
+    if pid not in ready:
+        continue
     c.setdefault('quick_cmd', '/venv/bin/python harness/check.py --property %s --tier quick' % pid)
     c.setdefault('thorough_cmd', '/venv/bin/python harness/check.py --property %s --tier thorough' % pid)
     c.setdefault('evidence_file', 'evidence/%s.json' % pid)
@@ -28,6 +31,8 @@ base['not_applicable'] = [{'property_id': 'C%02d' % i,
 json.dump(base, open(os.path.join(V, 'MANIFEST.json'), 'w'), indent=1)
 fs = []
 for fp in sorted(glob.glob(os.path.join(V, 'findings', 'C*.json'))):
+    if os.path.basename(fp)[:3] not in ready and os.path.basename(fp)[:3] != 'C09':
+        continue
     fs += json.load(open(fp)).get('findings', [])
 hdr = ('Genuine defects of bitcraze/crazyflie-lib-python found by the checks. status=known: still present, the check '
        'prints KNOWN-FINDING and exits 0 for exactly this input class; status=fixed: repaired by the named fix: commit in '
